@@ -542,7 +542,10 @@ fn run_leaf_inner(
             return fail("io-error", format!("step {} {}: unexpected I/O error {}", i, op.short(), e));
         }
         let c16_under_evicted = mon.c16 && matches!((&rec.got, &rec.expected), (Outcome::Truncated(g), Outcome::Truncated(e)) if g < e);
-        if rec.got != rec.expected && !(mon.c13 && rec.expected.is_rejected_or_noop()) && !c16_under_evicted {
+        // C04's monitor is model-free (it follows the positions the implementation itself reports):
+        // it still judges the step at which the outcome departs from the model, then the history ends
+        let c04_diverged = mon.c04 && rec.got != rec.expected && !mon.conformance;
+        if rec.got != rec.expected && !(mon.c13 && rec.expected.is_rejected_or_noop()) && !c16_under_evicted && !c04_diverged {
             if mon.conformance {
                 return fail(
                     "outcome-mismatch",
@@ -600,7 +603,7 @@ fn run_leaf_inner(
                 }
                 _ => {}
             }
-            if matches!(rec.got, Outcome::Reopened) || heavy {
+            if matches!(rec.got, Outcome::Reopened) || heavy || c04_diverged {
                 for (q, h) in &hi {
                     let lp = run
                         .subject
@@ -616,6 +619,9 @@ fn run_leaf_inner(
                     }
                 }
             }
+        }
+        if c04_diverged {
+            return fail("diverged", String::new());
         }
         // ---- file attribution from frame events (C06) and byte accounting (C15)
         if trace {
@@ -1144,7 +1150,10 @@ fn foreign_entries(outside: &std::path::Path) -> Vec<(String, Foreign)> {
         ("wal-00000000000000000000.tmp".to_string(), Foreign::File(evil.clone())),
         ("xwal-0000000000000000000".to_string(), Foreign::File(evil.clone())),
         ("wal-0000000000000000 001".to_string(), Foreign::File(evil.clone())),
-        ("wal--0000000000000000001".to_string(), Foreign::File(evil)),
+        ("wal--0000000000000000001".to_string(), Foreign::File(evil.clone())),
+        // 24 bytes of multi-byte UTF-8 with no char boundary at byte 4
+        ("\u{65e5}\u{672c}\u{8a9e}\u{306e}\u{30d5}\u{30a1}\u{30a4}\u{30eb}".to_string(), Foreign::File(evil.clone())),
+        ("wal\u{e9}0000000000000000001".to_string(), Foreign::File(evil)),
     ]
 }
 
@@ -1275,10 +1284,17 @@ fn c17_inner(stats: &mut Stats, dir: &std::path::Path, target: &std::path::Path,
         let res = open_log(dir, PolicyCfg::Default);
         let events = vh::trace_take();
         for e in &events {
-            if let Event::Open { name, create_new: true, is_dir: false, .. } | Event::Write { name, .. } | Event::SetLen { name, .. } = e {
+            if let Event::Open { name, is_dir: false, .. } | Event::Read { name, .. } | Event::Write { name, .. } | Event::SetLen { name, .. } = e {
                 if *name == wal_name(0) {
-                    return fail("foreign-entry-touched", format!("first open: the symlink {:?} was created/written/resized through", name));
+                    return fail("foreign-entry-touched", format!("first open: the symlink {:?} sitting on the name of the first WAL file was opened / read as log data / written / resized through ({:?})", name, e));
                 }
+            }
+        }
+        if let Ok(log) = &res {
+            // whatever open decided, nothing of the foreign file's content may show up as log data
+            let obs = observe(log);
+            if !obs.is_empty() {
+                return fail("foreign-entry-read-as-log", format!("first open with a symlink on the first WAL name returned a log with queues {}", obs_summary(&obs)));
             }
         }
         drop(res);
